@@ -57,4 +57,11 @@ PROPS["C12"] = {
     "assumptions": ["as C11"],
 }
 
+PROPS["C17"] = {
+    "suites": ["scan", "long_lines"],
+    "level_text": "The size limit is part of the model: Base/Lines.v scan takes the scanner limit as a parameter. Kernel-checked theorems for all limits and inputs: below the limit everything is delivered, at the limit exactly the prefix before the first long line is delivered with the error state set, no error implies completeness, an input shorter than the limit is never truncated; per-site line-for-line accounting of the rewriting commands. The limit each of the eight reading sites uses is regenerated from the Go source on every run (bufio default vs utils.NewLineScanner) and proved to be 2^63-1. Tied by differential runs of the scanner model against bufio.Scanner around 65536 bytes and of the site models on inputs with lines up to 300 KB (1 MiB thorough), and by an oracle on the binary (fails loudly or accounts for every line after the long one).",
+    "level_note": "Trusted: Coq kernel, translator (reads which scanner constructor each site calls), extraction, harness. bufio.Scanner itself is the validated model scan; memory exhaustion on inputs near 2^63 bytes is outside the model. generate's accounting for entries inside the optimiser is checked by the oracle only.",
+    "assumptions": ["inputs are smaller than 2^63-1 bytes"],
+}
+
 NOT_APPLICABLE = {}
